@@ -618,31 +618,39 @@ def gen_fn_histories(rnd, n):
         out.append({'nb': 0, 'pre': [], 'reqs': [[st] for st in h], 'tag': 'fn:fixed'})
     for _ in range(n):
         reqs = []
-        live = {}
+        live = {}           # fid -> sort, in creation order
+        retired = set()     # ids that were (possibly) dropped: never created again, so positions stay known
         for _ in range(rnd.choice((3, 4, 5, 6, 7, 8))):
             ch = rnd.random()
             fid = rnd.choice((1, 2, 3, 4))
-            older = [(f, s, None) for f, s in live.items() if f < fid]
+            order = list(live)
+            # a body may only call functions created BEFORE the function it belongs to (the model resolves
+            # calls positionally; the real compiler also accepts later ones when no cycle arises)
+            before = order[:order.index(fid)] if fid in live else order
+            older = [(f, live[f], None) for f in before]
             tg = TreeGen(rnd, older, param=True, pdml=rnd.choice((0.0, 0.3, 0.6)), maxtypes=3)
-            if ch < 0.35 or not live:
+            if (ch < 0.35 or not live) and fid not in live and fid not in retired:
                 sort = rnd.choice('IIO')
                 body = tg.I(rnd.choice((1, 2))) if sort == 'I' else tg.O(rnd.choice((0, 1)))
                 reqs.append([('Fc', fid, rnd.choice((None, None, 0, 1, 2, 3)), sort, body)])
-                live.setdefault(fid, sort)
-            elif ch < 0.55:
-                sort = live.get(fid, 'I')
+                live[fid] = sort
+            elif ch < 0.55 and fid in live:
+                sort = live[fid]
                 body = tg.I(rnd.choice((1, 2))) if sort == 'I' else tg.O(rnd.choice((0, 1)))
                 reqs.append([('Fb', fid, body)])
             elif ch < 0.7:
                 reqs.append([('Fv', fid, rnd.choice((None, 0, 1, 2, 3)))])
             elif ch < 0.78:
                 reqs.append([('Fd', fid)])
-            else:
+                retired.add(fid)
+            elif live:
                 f = rnd.choice(list(live))
                 call = ('call', f, [L()]) if live[f] == 'I' else ('callO', f, [L()])
                 ctx = rnd.choice(['result', 'filter', 'shapeSel', 'shapeIns', 'with']) if live[f] == 'I' else \
                     rnd.choice(['cnt', 'kidsIns', 'linkSel', 'root'])
                 reqs.append([('Q', apply_ctx(live[f], ctx, call))])
+        if not reqs:
+            continue
         out.append({'nb': 0, 'pre': [], 'reqs': reqs, 'tag': 'fn:random'})
     return out
 
